@@ -151,7 +151,20 @@ CHECKS["C13"] = dict(
           "msize and the connection must stay usable; the client vectors check request/reply sizing against a lowered msize."),
     ref="DESIGN.md section 5 C13", technique="TLC-evaluated size arithmetic (Version.tla) + exhaustive vector replay")
 
+CHECKS["C11"] = dict(
+    engine="chunk", category="model_checking",
+    note=("Trusted base: TLC; spec/Chunk.tla's loop transcription (checked against the independent one-operation properties "
+          "Contiguous / StopAtFirstShort / Result); the scaling of abstract units to bytes in harness/cmd/chunkio."),
+    text=("Chunk.tla is the chunk()/readAt/writeAt loop as a state machine whose environment chooses every request's outcome; TLC "
+          "explores all behaviours for chunk sizes 1..3 and lengths 0..3*chunk+1 and checks the one-operation semantics as "
+          "invariants; every finished behaviour is scaled to real payload sizes and offsets and executed through the real "
+          "client, server and a scripted backend (request sequence, n, error, bytes compared). Input-quantified with a small "
+          "abstract space that is exhaustive; scaled concretisation covers exact multiples, +-1 and offsets beyond 2^32."),
+    ref="DESIGN.md section 5 C11", technique="TLC exhaustive exploration of Chunk.tla + scaled replay through client/server/backend")
+
 ENGINES = [
+    {"name": "chunk", "path": "spec/Chunk.tla + spec/MC_Chunk.tla + harness/cmd/chunkio", "serves_properties": ["C11"],
+     "kind_free_text": "loop state machine explored exhaustively; behaviours replayed scaled"},
     {"name": "version", "path": "spec/Version.tla + spec/MC_Version.tla + harness/cmd/sizes",
      "serves_properties": ["C12", "C13"],
      "kind_free_text": "function/table specification evaluated by TLC over a finite grid; vectors replayed against server and client"},
